@@ -197,6 +197,8 @@ pub enum Pending {
     Raw { lid: Lid, op: RawOp, fault: Option<When> },
     Yield,
     Gate(usize),
+    /// wait until thread `tid` is blocked in a raw acquisition of lock `lid` (or has finished)
+    WaitBlocked { tid: Tid, lid: Lid },
     End,
 }
 
@@ -398,6 +400,17 @@ impl Inner {
             Some(Pending::None) => false,
             Some(Pending::Start) | Some(Pending::Yield) | Some(Pending::End) => true,
             Some(Pending::Gate(g)) => self.gates[g],
+            Some(Pending::WaitBlocked { tid, lid }) => {
+                let th = &self.threads[tid];
+                th.done
+                    || match th.pending_is {
+                        Some(Pending::Raw { lid: l, op, fault }) if l == lid && op.is_blocking() && fault != Some(When::Before) => match op {
+                            RawOp::LockShared => !self.grantable_shared(lid, tid),
+                            _ => !self.grantable_excl(lid),
+                        },
+                        _ => false,
+                    }
+            }
             Some(Pending::Raw { lid, op, fault }) => {
                 if fault == Some(When::Before) {
                     return true;
@@ -664,6 +677,10 @@ impl Inner {
             Pending::Gate(g) => {
                 self.stats.gate_waits += 1;
                 self.logev(t, 21, g as u64, 0);
+            }
+            Pending::WaitBlocked { tid, lid } => {
+                self.stats.gate_waits += 1;
+                self.logev(t, 24, lid as u64, tid as u64);
             }
             Pending::Start => self.logev(t, 22, 0, 0),
             Pending::End => self.logev(t, 23, 0, 0),
@@ -1015,6 +1032,12 @@ impl Sched {
     pub fn gate_wait(&self, gate: usize) {
         if let Some(me) = my_tid() {
             self.sched_point(me, Pending::Gate(gate));
+        }
+    }
+
+    pub fn wait_blocked(&self, tid: Tid, lid: Lid) {
+        if let Some(me) = my_tid() {
+            self.sched_point(me, Pending::WaitBlocked { tid, lid });
         }
     }
 
